@@ -84,7 +84,8 @@ QNcFixed == <<
   MkDecl(8, <<>>, NameFields(<< L(Rev8), L(<< <<4, 7>>, <<0, 3>> >>), L(<< <<7, 7>>, <<0, 0>> >>),
                                 L(<< <<2, 3>>, <<6, 7>>, <<0, 0>> >>), LA(<< <<0, 0>>, <<2, 2>>, <<4, 4>>, <<6, 6>> >>, 2, 1),
                                 LA(<< <<1, 1>>, <<0, 0>> >>, 4, 2) >>), <<>>, <<>>, FALSE),
-  MkDecl(7, <<>>, NameFields(<< L(Rev7), L(<< <<5, 6>>, <<0, 1>> >>), LA(<< <<0, 0>>, <<3, 3>> >>, 3, 1) >>), <<>>, <<>>, FALSE),
+  MkDecl(7, <<>>, NameFields(<< L(Rev7), L(<< <<5, 6>>, <<0, 1>> >>), LA(<< <<0, 0>>, <<3, 3>> >>, 3, 1),
+                                LA(<< <<1, 1>>, <<4, 4>> >>, 3, 0) >>), <<>>, <<>>, FALSE),      \* stride 0: all elements are the same bits
   MkDecl(16, <<>>, NameFields(<< L(<< <<8, 15>>, <<0, 7>> >>), LS(<< <<12, 15>>, <<0, 3>> >>), LS(<< <<4, 7>>, <<8, 11>> >>),
                                  L(<< <<15, 15>>, <<0, 6>> >>), LA(<< <<1, 1>>, <<3, 3>>, <<5, 5>>, <<7, 7>> >>, 2, 8),
                                  LSA(<< <<4, 7>>, <<0, 3>> >>, 2, 8), L(<< <<3, 10>>, <<0, 2>>, <<11, 15>> >>) >>), <<>>, <<>>, FALSE),
